@@ -35,6 +35,8 @@ func runC03(c *Check, tier string) {
 	ruleAdjacencyNotAliased(c, "R03f")
 	ruleNoSpawnInsideSlot(c, "R03g")
 	ruleExecutedCountsAsLoaded(c, "R03h")
+	// round 8: a task that panicked did not finish successfully
+	ruleRecoveredPanicIsAnError(c, "R03o", "worker", "execution", "dag", "loading", "output", "caching")
 	ruleRerunOnlyWhenNeeded(c, "R03i")
 	ruleCommandWaitedFor(c, "R03j")
 	ruleNoPoolReentry(c, "R03k")
